@@ -213,10 +213,104 @@ def theorem_domain(ctx):
     return mism
 
 
+KEYWISE_THEOREMS = ['Nbdime.C06_model_keywise', 'Nbdime.C06_model_different_keys', 'Nbdime.apply_keywise_obj']
+THEOREMS.extend(t for t in KEYWISE_THEOREMS if t not in THEOREMS)
+
+
+def rootkey_case(rng):
+    """the two sides work on different top-level parts of the notebook (cells / metadata / format minor), or make the
+    same change to one part: expected result by construction, no diff involved"""
+    minor = rng.choice([4, 5, 5])
+    base = gen_nb.gen_notebook(rng, minor)
+    parts = ['cells', 'metadata']
+    rng.shuffle(parts)
+    kind = rng.choice(['different', 'different', 'different', 'same', 'mixed'])
+    x = gen_nb.edit_notebook(rng, base, nedits=rng.choice([1, 2, 4]))[0]
+    y = gen_nb.edit_notebook(rng, base, nedits=rng.choice([1, 2, 4]))[0]
+    l, r, e = copy.deepcopy(base), copy.deepcopy(base), copy.deepcopy(base)
+    if kind == 'different':
+        l[parts[0]] = e[parts[0]] = copy.deepcopy(x[parts[0]])
+        r[parts[1]] = e[parts[1]] = copy.deepcopy(y[parts[1]])
+    elif kind == 'same':
+        for k in parts:
+            l[k] = copy.deepcopy(x[k]); r[k] = copy.deepcopy(x[k]); e[k] = copy.deepcopy(x[k])
+    else:
+        # one part changed identically on both sides, the other by one side only
+        l[parts[0]] = copy.deepcopy(x[parts[0]]); r[parts[0]] = copy.deepcopy(x[parts[0]]); e[parts[0]] = copy.deepcopy(x[parts[0]])
+        side = rng.choice([l, r])
+        side[parts[1]] = copy.deepcopy(y[parts[1]]); e[parts[1]] = copy.deepcopy(y[parts[1]])
+    for nb in (base, l, r, e):
+        if not gen_nb.is_valid(nb):
+            return None
+    return base, l, r, e, {'kind': kind, 'parts': parts}
+
+
+def keywise_domain(ctx):
+    """root-key cases through the implementation and through the Lean merger + applier: the decidable hypothesis
+    `Merge.keywise` of C06_model_keywise is evaluated by the driver; inside the domain the theorem says
+    apply(decide(base, ld, rd)) = patch(base, ld U rd) for the model; the implementation has to give the expected
+    notebook (built without any diff), without conflicts, and has to agree with the model."""
+    import random
+    from checks import mergemodel
+    rng = random.Random('C06/keywise/%s/%d' % (ctx.tier, ctx.seed))
+    combos = [mergelib.Args('inline'), mergelib.Args('mergetool'), mergelib.Args('use-remote'), mergelib.Args('union', 'inline', 'clear-all'),
+              mergelib.Args('inline', 'use-base', 'remove')]
+    cases, reqs = [], []
+    for t in range(40 if ctx.tier == 'quick' else 500):
+        c = rootkey_case(rng)
+        if c is None:
+            continue
+        b, l, r, e, info = c
+        a = combos[t % len(combos)]
+        data = {'kind': 'rootkey', 'b': enc(b), 'l': enc(l), 'r': enc(r), 'expected': enc(e), 'info': info, 'strategy': a.key(), 'helper': 'builtin'}
+        with mergelib.renderer('builtin'):
+            res = mergelib.run_merge(b, l, r, a)
+        ctx.case('k' + canon(b) + canon(l) + canon(r) + json.dumps(a.key()), True)
+        ctx.count('rootkey:' + info['kind'])
+        if res[0] != 'ok':
+            ctx.violation('merge of changes to different top-level parts raised %s' % res[2], dict(data, kind='raises'))
+            continue
+        if mergelib.has_conflict(res[2]):
+            ctx.violation('changes to different top-level parts (%s) are reported as a conflict under %s' % (info, a.key()), data)
+        elif canon(res[1]) != canon(e):
+            ctx.violation('merge of changes to different top-level parts is not base with both sets of changes applied (%s)' % (info,), dict(data, got=enc(res[1])))
+        try:
+            nb, ld, rd, S = mergemodel.notebook_case(b, l, r, a)
+        except Exception:
+            continue
+        with mergelib.renderer('builtin'):
+            dres, req = mergemodel.impl_decide(nb, ld, rd, S)
+        cases.append((dres, data, e))
+        reqs += [req, dict(req, want='keywise')]
+    replies = vlib.Driver().run(reqs) if reqs else []
+    mism = []
+    for i, (dres, data, e) in enumerate(cases):
+        rep, kw = replies[2 * i], replies[2 * i + 1]
+        ctx.cov['traces_validated_against_impl'] += 1
+        inside = kw.get('ok') is True
+        ctx.count('theorem-domain:keywise' if inside else 'theorem-domain:keywise-outside')
+        if not mergemodel.same(dres, rep):
+            mism.append({'stream': 'merge-model', 'tag': 'rootkey', 'difference': mergemodel.first_difference(dres, rep), 'case': data})
+            continue
+        if inside:
+            merged, patched = kw.get('merged', {}), kw.get('patched', {})
+            if 'ok' in merged and 'ok' in patched:
+                ctx.cov.setdefault('theorem_hypothesis_checks', 0)
+                ctx.cov['theorem_hypothesis_checks'] += 1
+                if canon(dec(merged['ok'])) != canon(dec(patched['ok'])):
+                    # impossible by C06_model_keywise: a driver / codec fault
+                    raise vlib.Infra('driver contradicts C06_model_keywise')
+                if canon(mergemodel.mask_markers(dec(merged['ok']))) != canon(mergemodel.mask_markers(plain(e))):
+                    mism.append({'stream': 'merge-model', 'tag': 'rootkey-applied', 'difference': {'model_merged_differs_from_expected': True}, 'case': data})
+    ctx.cov['correspondence_mismatches'] = ctx.cov.get('correspondence_mismatches', 0) + len(mism)
+    return mism
+
+
 def run(ctx):
     from checks import mergemodel
     _run_property(ctx)
     mism = theorem_domain(ctx)
+    mism += keywise_domain(ctx)
     mergemodel.tie(ctx, (40, 40, 400, 500), MERGE_MODEL_THEOREMS)
     mergemodel.report(ctx, mism, MERGE_MODEL_THEOREMS)
 
@@ -232,7 +326,13 @@ def replay(path):
 def _replay_property(path):
     data = json.load(open(path))['data']
     ctx = vlib.Ctx('C06', 'quick', 0)
-    if data.get('kind') in ('owned', 'raises'):
+    if data.get('kind') == 'rootkey' or (data.get('kind') == 'raises' and 'parts' in data.get('info', {})):
+        a = mergelib.Args(*data['strategy'])
+        with mergelib.renderer('builtin'):
+            res = mergelib.run_merge(dec(data['b']), dec(data['l']), dec(data['r']), a)
+        if res[0] != 'ok' or mergelib.has_conflict(res[2]) or canon(res[1]) != canon(dec(data['expected'])):
+            ctx.violation('merge of changes to different top-level parts: raised / conflict / not the expected notebook', data)
+    elif data.get('kind') in ('owned', 'raises'):
         check_case(ctx, dec(data['b']), dec(data['l']), dec(data['r']), dec(data['expected']), data['info'], mergelib.Args(*data['strategy']), data.get('helper', 'git'))
     for what, p, found in ctx.violations:
         print('REPRODUCED:', what[:300])
